@@ -323,10 +323,11 @@ def decCek (P : Prims) (jwe cek : Json) : Option Bs :=
 
 /-! ### PBES2 parameters (lib/openssl/pbes2.c) -/
 
-/-- the password: a JSON string as is, or the "k" of an oct key, at most KEYMAX bytes -/
+/-- the password: a JSON string as is (it is re-encoded into an oct key first), or the "k" of an oct
+    key; at most KEYMAX bytes either way -/
 def pbes2Password (jwk : Json) : Option Bs :=
   match jwk with
-  | .str s => some (B64.bytesOfString s)
+  | .str s => if (B64.bytesOfString s).length > keymax then none else some (B64.bytesOfString s)
   | other => (match bytesOfJson (other.get? "k") with
       | some k => if k.length > keymax then none else some k
       | none => none)
